@@ -65,7 +65,13 @@ def run(tier):
         gids = sorted({x["gid"] for x in cases if x["expected"] == "ok"})
         multi = [g for g in gids if sum(1 for x in cases if x["gid"] == g) > 2]
         keepg = set(rng.sample(gids, min(len(gids), 45))) | set(rng.sample(multi, min(len(multi), 25)))
-        cases = [x for x in cases if x["expected"] != "ok" or x["gid"] in keepg]
+        # accepted configurations with typed or extreme levels (Python ints for gamma / epsilon, epsilon far from 1,
+        # gamma 0 or 1) are always kept by their keyword-argument route: each solver class has code of its own for them
+        special = {x["gid"] for x in cases if x["expected"] == "ok" and (
+            str(x["c"]["gamma"]).startswith("int_") or str(x["c"]["eps"]).startswith("int_")
+            or x["c"]["eps"] in ("tiny", "twohundred", "million") or x["c"]["gamma"] in ("zero", "one"))}
+        cases = [x for x in cases if x["expected"] != "ok" or x["gid"] in keepg
+                 or (x["gid"] in special and x["route"] == "kwargs")]
     # creation order: problem created BEFORE 64-bit mode is enabled, fresh process each
     order_cases = []
     for kind in ("VI", "PI", "RVI", "PVI", "SAVI"):
